@@ -26,6 +26,9 @@ def run(ctx):
             C.choose(rng, p, C.ROW_KINDS)
         n = rng.randint(8, 14) * p["window_size"]
         xs = D.bursty_stream(rng, n, rng.randint(1, 3), p["window_size"])
+        if i % 8 == 5:         # byte-valued data handed over in narrow unsigned dtypes
+            xs = D.byte_stream(rng, n, rng.randint(1, 3), p["window_size"])
+            p["feed"] = {"seed": rng.randrange(10 ** 6), "kinds": [rng.choice(["uint8array", "uint16array"])]}
         resets = sorted(rng.sample(range(5, n), rng.randint(0, 1)))
         ts.append(D.run_stream(p, xs, resets, seed=rng.randrange(10 ** 6)))
     ctx.validate("KdqDetector", ts, "KdqTreeStreaming bursty integer streams", sabotage=D.det_sabotage, replay=rep_stream(ts),
@@ -37,6 +40,11 @@ def run(ctx):
             C.choose(rng, p, C.BATCH_KINDS)
         n = rng.randint(6, 12)
         bs = D.batch_sequence(rng, n, rng.randint(1, 3))
+        if i % 8 == 5:
+            dd = rng.randint(1, 3)
+            flat = D.byte_stream(rng, 40 * n, dd, 20)
+            bs = [flat[40 * j: 40 * j + rng.randint(25, 40)] for j in range(n)]
+            p["feed"] = {"seed": rng.randrange(10 ** 6), "kinds": [rng.choice(["uint8array", "uint16array"])]}
         setrefs = sorted(rng.sample(range(2, n), rng.randint(0, 1)))
         resets = sorted(rng.sample(range(2, n), rng.randint(1, 2))) if i % 3 == 1 else []          # the caller's own reset(), also right after a drift
         tb.append(D.run_batch(p, bs, setrefs, first_is_reference=rng.random() < 0.8, seed=rng.randrange(10 ** 6), resets=resets))
